@@ -16,7 +16,7 @@ func timedName(c timed.Cfg) string {
 	case "unfold":
 		return fmt.Sprintf("unfold cap=%d step=%s gaps=%v cancel-at=%d drain=%v%s%s", c.Cap, c.Step, c.ConsGaps, c.CancelAt, c.Drain, map[bool]string{true: " errors-unread"}[c.NoErr], map[bool]string{true: " context-cancelled-before-the-call"}[c.PreCancel])
 	}
-	return fmt.Sprintf("throttle ops=%d interval=%d cap=%d k=%d prod-gap=%d gaps=%v cancel-at=%d%s", c.Ops, c.Interval, c.Cap, c.K, c.ProdGap, c.ConsGaps, c.CancelAt, map[bool]string{true: fmt.Sprintf(" deadline=%d", c.Timeout)}[c.Timeout > 0])
+	return fmt.Sprintf("throttle ops=%d interval=%d cap=%d k=%d prod-gap=%d gaps=%v cancel-at=%d%s", c.Ops, c.Interval, c.Cap, c.K, c.ProdGap, c.ConsGaps, c.CancelAt, map[bool]string{true: fmt.Sprintf(" deadline=%d", c.Timeout)}[c.Timeout > 0]+map[bool]string{true: " context.Background"}[c.Background])
 }
 
 // C11: exact successive sequence, paced (Emit), until cancelled.
@@ -185,6 +185,17 @@ func c11Scenarios(tier string) []e1lib.Scenario {
 				add(timed.Cfg{Kind: "emit", Cap: cp, Freq: f, Mode: "try", Mask: 0b0011, CancelAt: -1, PreCancel: true, NoErr: noerr})
 				add(timed.Cfg{Kind: "emit", Cap: cp, Freq: f, Mode: "lift", Mask: 0b0001, CancelAt: -1, PreCancel: true, NoErr: noerr})
 			}
+		}
+	}
+	// frequencies of everyday magnitude (190 ms, 250 ms, 1.5 s of virtual time; so far every tick was 1 or 3 ns): however a
+	// period is slept - in one piece, in naps, on a ticker - the k-th value is not available before k periods
+	for cp := 0; cp <= 1; cp++ {
+		for _, f := range []int{190e6, 250e6, 1500e6, 100e6 + 1} {
+			for _, gaps := range [][]int{{0, 0, 0}, {0, f, 0}, {f / 3, 0}} {
+				add(timed.Cfg{Kind: "emit", Cap: cp, Freq: f, Mode: "pure", ConsGaps: gaps, CancelAt: -1})
+				add(timed.Cfg{Kind: "emit", Cap: cp, Freq: f, Mode: "try", Mask: 0b0010, ConsGaps: gaps, CancelAt: -1})
+			}
+			add(timed.Cfg{Kind: "emit", Cap: cp, Freq: f, Mode: "pure", ConsGaps: []int{0, 0, 0, 0}, CancelAt: f + f/2})
 		}
 	}
 	// a frequency of zero (or below): "no pacing" - the generator still produces every index, in order, as fast as it is consumed
